@@ -113,4 +113,33 @@ semantic version (x/mod/semver's `IsValid`); anything else is handed on unchange
 def normalizeBuild (linker : String) : String :=
   if linker.toList.head? = some 'v' ∧ isValid linker then String.ofList (linker.toList.drop 1) else linker
 
+/-! ### the rest of main.go: the version info and the build-info line -/
+
+/-- the fields of `goversion.Info` main.go touches -/
+structure Info where
+  gitVersion : String
+  gitCommit : String
+  treeState : String
+  buildDate : String
+  builtBy : String
+deriving Repr, DecidableEq, Inhabited
+
+/-- the callback of `main.buildVersion` applied to the defaults `d` (what the Go build info provides) and the five values the
+linker may inject (`-X main.version=…`, `commit`, `isGitDirty`, `date`, `builtBy`); empty values are ignored, the tree state
+only understands `true` / `false`, and the version — injected or default — is normalised -/
+def applyLinker (d : Info) (version commit dirty date builtBy : String) : Info :=
+  { gitVersion := normalizeBuild (if version != "" then version else d.gitVersion)
+    gitCommit := if commit != "" then commit else d.gitCommit
+    treeState := if dirty == "true" then "dirty" else if dirty == "false" then "clean" else d.treeState
+    buildDate := if date != "" then date else d.buildDate
+    builtBy := if builtBy != "" then builtBy else d.builtBy }
+
+/-- `main.buildInfo`: what the header of the generated file shows -/
+def buildInfo (i : Info) : String :=
+  let r := i.gitVersion
+  let r := if i.gitCommit != "unknown" then
+      (r ++ " " ++ i.gitCommit) ++ (if i.treeState != "unknown" then "-" ++ i.treeState else "")
+    else r
+  if i.buildDate != "unknown" then r ++ " (build date " ++ i.buildDate ++ ")" else r
+
 end GM.Semver
